@@ -6,6 +6,7 @@ import (
 	"fmt"
 	"go/token"
 	"go/types"
+	"os"
 
 	"golang.org/x/tools/go/ssa"
 )
@@ -31,6 +32,7 @@ func init() {
 type wmAnchors struct {
 	process, newFn, begin, done, wait, doneUntilFn *ssa.Function
 	fDoneUntil, fMarkC, fTs, fDone, fWaiter        *types.Var
+	mirrors                                        map[ssa.Value]bool
 }
 
 func wmGet(c *Ctx, r *RuleRun) *wmAnchors {
@@ -57,6 +59,9 @@ func wmGet(c *Ctx, r *RuleRun) *wmAnchors {
 
 // isDoneUntilRead: v is the current value of doneUntil (DoneUntil() or doneUntil.Load()).
 func (a *wmAnchors) isDoneUntilRead(p *Prog, v ssa.Value) bool {
+	if _, isPhi := v.(*ssa.Phi); isPhi && a.mirrorsOf(p)[v] {
+		return true
+	}
 	call, ok := v.(*ssa.Call)
 	if !ok {
 		return false
@@ -69,6 +74,240 @@ func (a *wmAnchors) isDoneUntilRead(p *Prog, v ssa.Value) bool {
 		return fv == a.fDoneUntil
 	}
 	return false
+}
+
+// mirrorsOf: locals of the consumer that always hold the current value of doneUntil - the consumer is the only writer
+// (WM.WRITER), the atomic starts at zero, so a variable that starts at zero and is assigned X after every Store(X)
+// equals it. A forward pass over the consumer's blocks tracks "the value known to equal the atomic": the zero
+// constant at the entry, X after Store(X), at a join the phi whose edges are exactly the values arriving. A phi is a
+// mirror if it is that value at its block and at every one of its uses.
+func (a *wmAnchors) mirrorsOf(p *Prog) map[ssa.Value]bool {
+	if a.mirrors != nil {
+		return a.mirrors
+	}
+	a.mirrors = map[ssa.Value]bool{}
+	f := a.process
+	if f == nil || len(f.Blocks) == 0 {
+		return a.mirrors
+	}
+	// no other function stores
+	for _, g := range p.Funcs {
+		if g != f && len(a.stores(p, g)) > 0 {
+			return a.mirrors
+		}
+	}
+	isStore := map[ssa.Instruction]ssa.Value{}
+	for _, st := range a.stores(p, f) {
+		obj := p.CalleeObj(st)
+		if obj == nil || obj.Name() != "Store" || len(st.Call.Args) != 2 {
+			return a.mirrors // Add/Swap/CAS: not tracked
+		}
+		isStore[st] = st.Call.Args[1]
+	}
+	type state struct {
+		known bool // computed at all
+		v     ssa.Value
+		zero  bool // the initial zero
+		bot   bool
+	}
+	same := func(x state, v ssa.Value) bool {
+		if x.bot {
+			return false
+		}
+		if x.zero {
+			k, ok := constInt(v)
+			return ok && k == 0
+		}
+		return x.v == v || unconv(x.v) == unconv(v)
+	}
+	eq := func(x, y state) bool {
+		if x.bot || y.bot {
+			return x.bot == y.bot
+		}
+		if x.zero || y.zero {
+			if x.zero && y.zero {
+				return true
+			}
+			if x.zero {
+				return same(x, y.v)
+			}
+			return same(y, x.v)
+		}
+		return x.v == y.v
+	}
+	in := map[*ssa.BasicBlock]state{}
+	out := map[*ssa.BasicBlock]state{}
+	transfer := func(b *ssa.BasicBlock, s state) state {
+		for _, ins := range b.Instrs {
+			if x, ok := isStore[ins]; ok {
+				s = state{known: true, v: x}
+			}
+		}
+		return s
+	}
+	// only a phi each of whose edges can be the tracked value at all is a candidate: the zero it starts with, itself,
+	// something that was stored, or another such phi
+	storedVal := map[ssa.Value]bool{}
+	for _, x := range isStore {
+		storedVal[x] = true
+		storedVal[unconv(x)] = true
+	}
+	var plausibleD func(ph *ssa.Phi, seen map[*ssa.Phi]bool) bool
+	plausibleD = func(ph *ssa.Phi, seen map[*ssa.Phi]bool) bool {
+		if seen[ph] {
+			return true
+		}
+		seen[ph] = true
+		for _, e := range ph.Edges {
+			if e == ssa.Value(ph) || storedVal[e] || storedVal[unconv(e)] {
+				continue
+			}
+			if k, ok := constInt(e); ok && k == 0 {
+				continue
+			}
+			if p2, ok := e.(*ssa.Phi); ok && plausibleD(p2, seen) {
+				continue
+			}
+			return false
+		}
+		return true
+	}
+	plausible := func(ph *ssa.Phi) bool { return plausibleD(ph, map[*ssa.Phi]bool{}) }
+	order := f.DomPreorder()
+	// A join picks, optimistically, a phi that agrees with what has arrived so far; a pick that later disagrees with
+	// what comes round a back edge is banned and the pass starts over.
+	banned := map[*ssa.Phi]bool{}
+	converged := false
+	for restart := 0; restart < 24 && !converged; restart++ {
+		in = map[*ssa.BasicBlock]state{}
+		out = map[*ssa.BasicBlock]state{}
+		chosen := map[*ssa.BasicBlock]*ssa.Phi{}
+		again := false
+		for iter := 0; iter < 16 && !again; iter++ {
+			changed := false
+			for _, b := range order {
+				var ns state
+				if b == f.Blocks[0] {
+					ns = state{known: true, zero: true}
+				} else {
+					var arriving []state
+					var idx []int
+					for k, pb := range b.Preds {
+						if o := out[pb]; o.known {
+							arriving = append(arriving, o)
+							idx = append(idx, k)
+						}
+					}
+					if len(arriving) == 0 {
+						continue
+					}
+					all := true
+					for _, o := range arriving[1:] {
+						if !eq(o, arriving[0]) {
+							all = false
+						}
+					}
+					ns = state{known: true, bot: true}
+					if all {
+						ns = arriving[0]
+					}
+					var pick *ssa.Phi
+					if len(b.Preds) > 1 {
+						for _, ins := range b.Instrs {
+							ph, ok := ins.(*ssa.Phi)
+							if !ok {
+								break
+							}
+							if banned[ph] || !plausible(ph) {
+								continue
+							}
+							match := true
+							for j, o := range arriving {
+								if !same(o, ph.Edges[idx[j]]) {
+									match = false
+								}
+							}
+							if match {
+								pick = ph
+								break
+							}
+						}
+					}
+					if prev := chosen[b]; prev != nil && pick != prev {
+						if os.Getenv("OGDEBUG_MIRROR") != "" {
+							fmt.Fprintf(os.Stderr, "mirror: ban %s at block %d arriving=%+v idx=%v\n", prev.Name(), b.Index, arriving, idx)
+						}
+						banned[prev] = true
+						again = true
+						break
+					}
+					if pick != nil {
+						chosen[b] = pick
+						ns = state{known: true, v: pick}
+					}
+				}
+				if old, ok := in[b]; !ok || !eq(old, ns) || old.known != ns.known {
+					in[b] = ns
+					changed = true
+				}
+				no := transfer(b, ns)
+				if old, ok := out[b]; !ok || !eq(old, no) {
+					out[b] = no
+					changed = true
+				}
+			}
+			if !changed && !again {
+				converged = true
+				break
+			}
+		}
+	}
+	if !converged {
+		return a.mirrors
+	}
+	if os.Getenv("OGDEBUG_MIRROR") != "" {
+		for _, b := range f.Blocks {
+			fmt.Fprintf(os.Stderr, "mirror: block %d in=%+v out=%+v\n", b.Index, in[b], out[b])
+		}
+	}
+	// candidates: phis that are the tracked value at their block, and at every use
+	stateAt := func(u ssa.Instruction) state {
+		b := u.Block()
+		s := in[b]
+		for _, ins := range b.Instrs {
+			if ins == u {
+				break
+			}
+			if x, ok := isStore[ins]; ok {
+				s = state{known: true, v: x}
+			}
+		}
+		return s
+	}
+	for _, b := range f.Blocks {
+		for _, ins := range b.Instrs {
+			ph, ok := ins.(*ssa.Phi)
+			if !ok {
+				break
+			}
+			if s := in[b]; !s.known || s.bot || s.zero || s.v != ssa.Value(ph) {
+				continue
+			}
+			good := true
+			for _, ref := range *ph.Referrers() {
+				if _, isPhi := ref.(*ssa.Phi); isPhi {
+					continue
+				}
+				if s := stateAt(ref); !s.known || s.bot || s.zero || s.v != ssa.Value(ph) {
+					good = false
+				}
+			}
+			if good {
+				a.mirrors[ph] = true
+			}
+		}
+	}
+	return a.mirrors
 }
 
 func (a *wmAnchors) stores(p *Prog, f *ssa.Function) []*ssa.Call {
@@ -407,6 +646,17 @@ func runWmSign(c *Ctx, r *RuleRun) {
 			}
 			n++
 			good := isLoadOfField(hc.Call.Args[0], a.fDone)
+			// or a method of the mark itself: m.delta() tests m.done inside
+			ofMark := false
+			if n2 := p.isModuleNamed(h.Params[0].Type()); n2 != nil && !good {
+				if st, isSt := n2.Underlying().(*types.Struct); isSt {
+					for i := 0; i < st.NumFields(); i++ {
+						if st.Field(i) == a.fDone {
+							ofMark, good = true, true
+						}
+					}
+				}
+			}
 			nret := 0
 			eachInstr(h, func(i2 ssa.Instruction) {
 				ret, isRet := i2.(*ssa.Return)
@@ -415,7 +665,13 @@ func runWmSign(c *Ctx, r *RuleRun) {
 				}
 				nret++
 				k, isK := constInt(retOperand(ret, 0))
-				isPrm := func(v ssa.Value) bool { return v == ssa.Value(h.Params[0]) }
+				isPrm := func(v ssa.Value) bool {
+					if ofMark {
+						fv, base := loadedField(v)
+						return fv == a.fDone && (base == ssa.Value(h.Params[0]) || singleStore(base) == ssa.Value(h.Params[0]))
+					}
+					return v == ssa.Value(h.Params[0])
+				}
 				if !isK || !((k == -1 && boolFactIs(ret, isPrm, true)) || (k == 1 && boolFactIs(ret, isPrm, false))) {
 					good = false
 				}
